@@ -356,3 +356,21 @@ func debugCFG(r *core.Run) {
 		}
 	}
 }
+
+func init() { Registry["X-usedef"] = debugUseDef }
+
+// debugUseDef: the defined-before-read rule on the package named by GCV_PKG (development aid).
+func debugUseDef(r *core.Run) {
+	p := load(r, core.LoadOpts{})
+	if p == nil {
+		return
+	}
+	r.Rule("X", "x")
+	localsDefinedBeforeRead(r, p, "X", os.Getenv("GCV_PKG"), nil)
+	for _, o := range r.Obs {
+		if o.Status != "ok" {
+			fmt.Println(o.Where, o.Key, o.Detail)
+		}
+	}
+	fmt.Println(len(r.Obs), "obligations")
+}
